@@ -112,6 +112,7 @@ def execute_run_isolated(mod, seed: int, run_index: int, tier: str):
         code = 0
         try:
             os.close(r)
+            os.setsid()  # own session: whatever the run starts (manager, worker processes) is killed with it
             limit = int(getattr(mod, "CPU_LIMIT", 30)) + 20
             resource.setrlimit(resource.RLIMIT_CPU, (limit, limit + 5))
             res = execute_run(mod, seed, run_index, tier)
@@ -154,6 +155,10 @@ def execute_run_isolated(mod, seed: int, run_index: int, tier: str):
     os.close(r)
     if status is None:
         _, status = os.waitpid(pid, 0)
+    try:
+        os.killpg(pid, signal.SIGKILL)  # leftovers of the run (e.g. a multiprocessing manager server)
+    except (ProcessLookupError, PermissionError):
+        pass
     data = bytes(buf[8:8 + need]) if need is not None and len(buf) >= 8 + need else b""
     if data:
         try:
